@@ -18,6 +18,9 @@ def body(led):
     c11_kernel.body(led)
     from . import c11_wrap
     c11_wrap.body(led)
+    if getattr(led, 'tier', 'quick') == 'thorough':
+        from . import binary_xcheck
+        binary_xcheck.check_fields(led)
 
 
 def main():
